@@ -47,7 +47,7 @@ type Op struct {
 	M     int  `json:"m,omitempty"`     // pick: method index into Methods
 	Key   int  `json:"key,omitempty"`   // pick: request key index into Keys
 	KeyOf int  `json:"keyof,omitempty"` // pick: !=0: use a key bound to the channel of the most recent outstanding call, if there is one
-	Msg   int  `json:"msg,omitempty"`   // pick: 0 normal, 1 nil message, 2 empty list / empty key, 3 nil pointer message, 4 non-struct message
+	Msg   int  `json:"msg,omitempty"`   // pick: 0 normal, 1 nil message, 2 empty list / empty key, 3 nil pointer message, 4 non-struct message, 5 struct with a nil embedded message pointer
 	NoIC  bool `json:"noic,omitempty"`  // pick: context without the interceptor value
 	DlMs  int  `json:"dlms,omitempty"`  // pick: deadline in ms (0 = none)
 
@@ -115,6 +115,12 @@ type Msg struct {
 	Keys []string
 	Num  int32
 	Sub  *Msg
+}
+
+// EmbMsg embeds a (nil) message pointer: its Key / Keys / Sub fields are promoted from it.
+type EmbMsg struct {
+	*Msg
+	Other string
 }
 
 // JSON renders the ApiConfig of c (absent fields are left out).
